@@ -2,7 +2,7 @@
    below deliberately work by symbolic execution (unfold, split every `if`, replace truncating division by its
    defining equation, close by nia), not by syntactic matching, so that a behaviour-preserving rewrite of the
    C++ still checks while a behaviour-changing one does not. *)
-From Coq Require Import ZArith List Bool Lia.
+From Coq Require Import ZArith List Bool Lia FinFun.
 From Raptor Require Import Dist.GenLeaf Dist.Leaf.
 Import ListNotations.
 Local Open Scope Z_scope.
@@ -604,4 +604,99 @@ Proof.
   destruct (topology_forward o nprocs PPN p Ho Hn HP Hp) as (_ & _ & Gp & _).
   destruct (topology_forward o nprocs PPN q Ho Hn HP Hq) as (_ & _ & Gq & _).
   fold nn in Gp, Gq. rewrite <- Gp, <- Gq, E1, E2. reflexivity.
+Qed.
+
+(* ================= Comm_split(color = node, key = rank): on-node rank = get_local_proc ================= *)
+
+(* among ranks of one node, the on-node index grows with the rank *)
+Lemma topo_local_monotone o nn PPN nprocs p q :
+  supported o -> 1 <= PPN -> 1 <= nn -> nprocs <= nn * PPN -> 0 <= q < p -> p < nprocs ->
+  Topology_get_node o nn PPN q = Topology_get_node o nn PPN p ->
+  Topology_get_local_proc o nn PPN q < Topology_get_local_proc o nn PPN p.
+Proof.
+  intros Ho HP Hn Hle Hq Hp.
+  unfold Topology_get_node, Topology_get_local_proc.
+  destruct Ho as [-> | [-> | ->]]; split_ifs; b2p; try lia;
+    qr p nn; qr p PPN; qr q nn; qr q PPN; try (qr q0 2); try (qr q2 2); b2p; intros; try nia;
+    match goal with |- ?a < ?b => assert (a <= b) by nia; lia end.
+Qed.
+
+(* every smaller on-node index of p's node is taken by a lower rank *)
+Lemma topo_lower_exists o nn PPN nprocs p l :
+  supported o -> 1 <= PPN -> 1 <= nn -> nprocs <= nn * PPN -> 0 <= p < nprocs ->
+  0 <= l < Topology_get_local_proc o nn PPN p ->
+  0 <= Topology_get_global_proc o nn PPN (Topology_get_node o nn PPN p) l < p.
+Proof.
+  intros Ho HP Hn Hle Hp.
+  unfold Topology_get_node, Topology_get_local_proc, Topology_get_global_proc.
+  destruct Ho as [-> | [-> | ->]]; split_ifs; b2p; try lia;
+    qr p nn; qr p PPN; try (qr q 2); try (qr l 2); b2p; intros; try nia.
+Qed.
+
+(* counting through a bijection onto 0..n-1 *)
+Lemma ranks_upto_NoDup n : NoDup (ranks_upto n).
+Proof.
+  unfold ranks_upto. apply FinFun.Injective_map_NoDup; [|apply seq_NoDup].
+  intros a b H. apply Nat2Z.inj. exact H.
+Qed.
+
+Lemma ranks_upto_In n x : In x (ranks_upto n) <-> 0 <= x < Z.of_nat n.
+Proof.
+  unfold ranks_upto. rewrite in_map_iff. split.
+  - intros (i & <- & Hi). apply in_seq in Hi. lia.
+  - intros Hx. exists (Z.to_nat x). split; [lia|]. apply in_seq. lia.
+Qed.
+
+Lemma ranks_upto_length n : length (ranks_upto n) = n.
+Proof. unfold ranks_upto. rewrite map_length, seq_length. reflexivity. Qed.
+
+Lemma count_by_bijection (L : list Z) (f : Z -> Z) (n : nat) :
+  NoDup L ->
+  (forall x y, In x L -> In y L -> f x = f y -> x = y) ->
+  (forall x, In x L -> 0 <= f x < Z.of_nat n) ->
+  (forall l, 0 <= l < Z.of_nat n -> exists x, In x L /\ f x = l) ->
+  length L = n.
+Proof.
+  intros Hnd Hinj Hran Hsur.
+  assert (NDm : NoDup (map f L)).
+  { clear Hran Hsur. induction L as [|x L IH]; cbn; [constructor|].
+    inversion Hnd as [|? ? Hx HL]; subst. constructor.
+    - intros Hin. apply in_map_iff in Hin. destruct Hin as (y & Hy & HyL).
+      assert (y = x) by (apply Hinj; [right; exact HyL | left; reflexivity | exact Hy]). subst. contradiction.
+    - apply IH; [exact HL|]. intros a b Ha Hb. apply Hinj; right; assumption. }
+  assert (L1 : (length (map f L) <= length (ranks_upto n))%nat).
+  { apply NoDup_incl_length; [exact NDm|]. intros y Hy. apply in_map_iff in Hy. destruct Hy as (x & <- & Hx).
+    apply ranks_upto_In. apply Hran. exact Hx. }
+  assert (L2 : (length (ranks_upto n) <= length (map f L))%nat).
+  { apply NoDup_incl_length; [apply ranks_upto_NoDup|]. intros y Hy. apply ranks_upto_In in Hy.
+    destruct (Hsur y Hy) as (x & Hx & <-). apply in_map. exact Hx. }
+  rewrite map_length, ranks_upto_length in *. lia.
+Qed.
+
+(* the rank of p inside local_comm (number of lower ranks on its node) is get_local_proc p *)
+Lemma split_rank_is_local_proc o nprocs PPN (p : nat) :
+  supported o -> 1 <= PPN -> Z.of_nat p < nprocs ->
+  Z.of_nat (split_rank o nprocs PPN p) = Topology_get_local_proc o (topo_num_nodes nprocs PPN) PPN (Z.of_nat p).
+Proof.
+  intros Ho HP Hp. unfold split_rank, node_of.
+  set (nn := topo_num_nodes nprocs PPN).
+  destruct (ctor_num_nodes_spec nprocs PPN ltac:(lia) HP) as (_ & Hnn). fold nn in Hnn.
+  assert (Hn1 : 1 <= nn) by (apply num_nodes_pos; lia).
+  destruct (topo_forward o nn PPN nprocs (Z.of_nat p) Ho HP Hn1 ltac:(lia) ltac:(lia)) as (Fnd & Flp & _).
+  set (lp := Topology_get_local_proc o nn PPN (Z.of_nat p)) in *.
+  rewrite <- (Z2Nat.id lp) by lia. f_equal.
+  apply (count_by_bijection _ (Topology_get_local_proc o nn PPN)).
+  - apply NoDup_filter, ranks_upto_NoDup.
+  - intros x y Hx Hy E. apply filter_In in Hx, Hy. destruct Hx as (Hx & Ex), Hy as (Hy & Ey).
+    apply ranks_upto_In in Hx, Hy. b2p.
+    apply (topology_injective o nprocs PPN x y Ho ltac:(lia) HP ltac:(lia) ltac:(lia)); fold nn; congruence.
+  - intros x Hx. apply filter_In in Hx. destruct Hx as (Hx & Ex). apply ranks_upto_In in Hx. b2p.
+    destruct (topo_forward o nn PPN nprocs x Ho HP Hn1 ltac:(lia) ltac:(lia)) as (_ & Fx & _).
+    pose proof (topo_local_monotone o nn PPN nprocs (Z.of_nat p) x Ho HP Hn1 ltac:(lia) ltac:(lia) ltac:(lia) Ex).
+    fold lp in H. lia.
+  - intros l Hl. rewrite Z2Nat.id in Hl by lia.
+    pose proof (topo_lower_exists o nn PPN nprocs (Z.of_nat p) l Ho HP Hn1 ltac:(lia) ltac:(lia) Hl) as Hg.
+    destruct (topo_backward o nn PPN (Topology_get_node o nn PPN (Z.of_nat p)) l Ho HP Hn1 Fnd ltac:(lia)) as (_ & Bn & Bl).
+    exists (Topology_get_global_proc o nn PPN (Topology_get_node o nn PPN (Z.of_nat p)) l).
+    split; [|exact Bl]. apply filter_In. split; [apply ranks_upto_In; lia|]. apply Z.eqb_eq. exact Bn.
 Qed.
